@@ -208,6 +208,13 @@ func (a *pwaligner) fillMatrix_SW() (err error) {
 			a.trace[0][j] = ALIGN_DIAG // TO REVIEW
 		}
 
+		// The best local alignment may end in the first row
+		if a.matrix[0][j] > a.maxscore {
+			a.maxscore = a.matrix[0][j]
+			a.maxi = 0
+			a.maxj = j
+		}
+
 		// A gap going down from the first row is always a gap opening,
 		// whatever the way the previous cell of the row has been reached
 		a.maxa[j] = a.matrix[0][j] + a.gapopen
@@ -237,6 +244,13 @@ func (a *pwaligner) fillMatrix_SW() (err error) {
 		} else {
 			a.matrix[i][0] = 0.0
 			a.trace[i][0] = ALIGN_DIAG // TO REVIEW
+		}
+
+		// The best local alignment may end in the first column
+		if a.matrix[i][0] > a.maxscore {
+			a.maxscore = a.matrix[i][0]
+			a.maxi = i
+			a.maxj = 0
 		}
 	}
 
